@@ -176,8 +176,8 @@ def _node(pos, mi, kind, vi):
     return rt.fin(ok, why)
 
 
-QUICK = [("list", 1), ("list", 7), ("mx4", 1), ("mx5", 2), ("strict", 0), ("iso", 1)]
-QUICK_AROUND = {("list", 1): 3, ("strict", 0): 1, ("iso", 1): 1}
+QUICK = [("list", 1), ("list", 7), ("mx4", 1), ("mx5", 2), ("strict", 0), ("iso", 1), ("docmarks", 0)]
+QUICK_AROUND = {("list", 1): 3, ("strict", 0): 1, ("iso", 1): 1, ("docmarks", 0): 2}
 
 
 def obligations(tier, seed):
